@@ -430,11 +430,10 @@ func (a *App) Run(w Widget) error {
 					return err
 				}
 			case vaxis.FocusIn:
-				cmd, err := w.HandleEvent(MouseEnter{}, TargetPhase)
+				err := mh.mouseEnter(a, w)
 				if err != nil {
 					return err
 				}
-				a.handleCommand(cmd)
 			case vaxis.FocusOut:
 				mh.mouse = nil
 				err := mh.mouseExit(a)
@@ -735,6 +734,24 @@ func (m *mouseHandler) mouseExit(app *App) error {
 	}
 	// Clear the last hit list
 	m.lastHits = []hitResult{}
+	return nil
+}
+
+// mouseEnter sends a mouseEnter event to w unless it is in the last hit list
+// already, and adds it to the last hit list so that it will get the matching
+// mouseLeave event
+func (m *mouseHandler) mouseEnter(app *App, w Widget) error {
+	for _, h := range m.lastHits {
+		if h.w == w {
+			return nil
+		}
+	}
+	m.lastHits = append(m.lastHits, hitResult{w: w})
+	cmd, err := w.HandleEvent(MouseEnter{}, TargetPhase)
+	if err != nil {
+		return err
+	}
+	app.handleCommand(cmd)
 	return nil
 }
 
